@@ -236,6 +236,8 @@ class Problem:
         self.moment = case["moment"]
         self.ratio, self.bound = ratio_and_bound(case)
         self.error_utility = self.moment == "ErrorRateParity"
+        c = case.get("costs")
+        self.costs = (1.0, 1.0) if not c else (float(c["fp"]), float(c["fn"]))
         garr = np.asarray(self.g, dtype=object)
         groups = []
         for v in self.g:
@@ -269,8 +271,10 @@ class Problem:
         return p
 
     def error(self, pred):
+        """Objective value: misclassification rate, or the cost-weighted error when the case names costs."""
         p = self._pred(pred)
-        return float(np.mean(p != self.y))
+        fp, fn = self.costs
+        return float(np.mean(fp * ((p == 1) & (self.y == 0)) + fn * ((p == 0) & (self.y == 1))))
 
     def gamma(self, pred):
         p = self._pred(pred)
